@@ -1,7 +1,7 @@
 /-
   C06 (round 2) — the mode / index-count rule at DOCUMENT level, exactly: every glTF mesh of the written document is
   referenced by a node, nodes of meshes pair with the visible models, hence `docModeCountOK w.doc` (what a validator checks
-  without knowing the scene) ⇔ every visible model is a point mesh or has a multiple of three indices.
+  without knowing the scene) ⇔ every visible model's own index count fits its topology (`PMesh.indexCountFits`).
 -/
 import PolyVerif.Props.C06Topo
 import PolyVerif.Props.C06Glb
@@ -121,11 +121,11 @@ theorem zip_exists_left {α β} {R : α → β → Prop} : ∀ {l : List α} {r 
 
 /-- DOCUMENT LEVEL, EXACTLY.  For every well-formed scene the writer accepts: every indexed primitive of the written document
     has a number of indices compatible with its drawing mode (`docModeCountOK`, the glTF mode / index-count rule, checked on
-    the document alone) IFF every visible model is a point mesh or has a multiple of three indices.  One visible line, quad,
-    line-strip or line-loop mesh with another index count yields a document that breaks the rule. -/
+    the document alone) IFF every visible model's own index count fits its topology (3k indices for triangles, 2k for lines, at least two for
+    loops / strips). -/
 theorem gltf_doc_mode_count_iff (s : Scene) (w : W) (hs : SceneOK s) (h : writeScene s = .ok w) :
     docModeCountOK w.doc = true ↔
-      ∀ md ∈ s.visible, ∀ m, s.meshOf md = some m → (m.topo = 1 ∨ m.indices.length % 3 = 0) := by
+      ∀ md ∈ s.visible, ∀ m, s.meshOf md = some m → m.indexCountFits = true := by
   refine ⟨gltf_doc_mode_count_imp s w hs h, fun hall => ?_⟩
   have hz := scene_zip_carries s w hs h
   unfold docModeCountOK
@@ -147,7 +147,7 @@ theorem gltf_doc_mode_count_iff (s : Scene) (w : W) (hs : SceneOK s) (h : writeS
     · cases hp
   rw [hprims]
   simp only [List.all_cons, List.all_nil, Bool.and_true, hidx, hx, hmode, hcount]
-  exact (modeCountOK_written m.topo m.indices.length).mpr (hall md hmd m hm)
+  exact hall md hmd m hm
 
 /-! ### the binary container carries the buffer the document speaks about -/
 
